@@ -52,11 +52,12 @@ let parse_op w = match w with
   | "write" :: j :: f :: _ -> OWrite (n (int_of_string j), (f = "1"))
   | "eval" :: j :: _ -> OEval (n (int_of_string j))
   | "del" :: j :: _ -> ODestroy (n (int_of_string j))
+  | "dkey" :: j :: key :: _ -> ORemoveKey (n (int_of_string j), n (int_of_string key))
   | _ -> failwith ("op: " ^ String.concat " " w)
 
 let cfg_of_bits s =
   let b k = String.length s > k && s.[k] = '1' in
-  { fx_aux = b 0; fx_clear = b 1; fx_conv = b 2; fx_fit = b 3; fx_eq = b 4; fx_perm = b 5; fx_moveasg = b 6; fx_auxsize = b 7 }
+  { fx_aux = b 0; fx_clear = b 1; fx_conv = b 2; fx_fit = b 3; fx_eq = b 4; fx_perm = b 5; fx_moveasg = b 6; fx_auxsize = b 7; fx_rmkey = b 8 }
 
 let slot_s = function Null -> "N" | Unset | Dangling -> "X" | Owned (_, b) -> "L" ^ string_of_int (i b)
 let owned_with o f bytes = match get o f with Owned (_, b) -> i b = bytes | _ -> false
@@ -72,7 +73,7 @@ let dump j o =
     (slot_s (get o FCoeff)) (slot_s (get o FNaxes)) (slot_s (get o FStrides)) (slot_s (get o FAux)));
   Buffer.add_string b (" extents0=" ^ (if nd <> 0 && owned_with o FExtents (8 * nd) then slot_s (get o FExtents0) else "-"));
   Buffer.add_string b (" knoti=" ^ (if nd <> 0 && owned_with o FKnots (8 * nd) then commas (fun k -> slot_s (get o (FKnot (n k)))) (range nd) else "-"));
-  if built o then begin
+  if nd <> 0 && tbl_ok o then begin
     Buffer.add_string b (" orders=" ^ commas (fun x -> string_of_int (i x)) o.orders);
     Buffer.add_string b (" nk=" ^ commas (fun x -> string_of_int (i x)) o.nknots);
     Buffer.add_string b (" nax=" ^ commas (fun x -> string_of_int (i x)) o.naxes)
@@ -117,9 +118,15 @@ let () =
         Printf.printf "end balanced=%b\n" (balancedb (List.rev (!w).wm.trace))
     | "op" :: rest ->
         let x = parse_op rest in
+        let hit = (match x with
+          | ORemoveKey (j, key) -> (match get_obj !w j with
+                                    | Some o -> (match find_key key o.auxs O with Some _ -> "hit" | None -> "miss")
+                                    | None -> "-")
+          | _ -> "-") in
         let (w', out) = step !c !f !w x in
         w := w';
-        Printf.printf "r %d %s %s\n" !k (List.hd rest) (outcome_s out);
+        let os = (match out with Ok when hit <> "-" -> "ok " ^ hit | _ -> outcome_s out) in
+        Printf.printf "r %d %s %s\n" !k (List.hd rest) os;
         List.iteri (fun j o -> match o with Some o -> dump j o | None -> ()) w'.objs;
         heapline w'.wm;
         incr k
